@@ -29,6 +29,7 @@ META["claim"] += " " + 'Round 3b: payloads of 16385 / 40000 / 65536 bytes with t
 META["claim"] += " " + 'Round 4: non-blocking runs also over a TLS transport (SSLWantReadError instead of EAGAIN); EAGAIN runs in a process holding more than 1024 descriptors; ambient conditions drawn per connection.'
 META["claim"] += " " + "Round 5: timeouts after the client's own send_close() (it keeps receiving); two connections read by two threads with descriptors non-blocking at the OS level."
 META["claim"] += " " + 'Rounds 6-7: LF-only responses, payloads trickled in more than 16384 reads, zero lengths in the long forms; the same object connected again after its first connection was cut at every byte of a mixed stream (end of stream, reset, timeout then shutdown()/close()); slow traffic on direct and proxied connections with and without http_proxy_timeout and a timeout of their own.'
+META["claim"] += " " + 'Round 8: interruptions that are not Exceptions (KeyboardInterrupt family) injected where timeouts were; 32 MiB frames arriving in instalments with timeouts; real TCP (library-made socket) with the answer cut at every line end of the response.'
 
 CALLS = [("recv", False), ("recv_data_frame", True), ("recv_data", False), ("recv_data_frame", False), ("recv_frame", False)]
 
